@@ -33,7 +33,7 @@ from vf.common import real
 from vf.dcsym import shadow, quiet
 from vf.symnp import SArr, SymNP, Tok, _elems
 from vf.symx import (Engine, SBool, SFloat, SInt, SReal, NotModelled, tobool,
-                     toint, toreal, smax, smin, srange, sint)
+                     toint, toreal, smax, smin, srange, sint, rebind)
 
 PID = "C12"
 ST = "dclab.statistics"
@@ -727,6 +727,31 @@ def run_defaults(eng, p):
     eng.prove(same(wx, (lift(hi) - lift(lo)) / k),
               "bin_width_doane == (max-min) / (1 + log2 n + log2(1 + "
               "|skew|/sigma))")
+    # default bins of kde_histogram: Doane's number of the RESPECTIVE axis
+    # (an uninterpreted integer per axis, 0..7, so that max(5, .) varies)
+    nums = {}
+
+    def bin_num(a):
+        key = str(lift(list(_elems(a))[0]).v)
+        if key not in nums:
+            v = eng.int("doane_num_%d" % len(nums))
+            eng.assume((v >= 0) & (v <= 7))
+            nums[key] = v
+        return nums[key]
+    km["bin_num_doane"] = bin_num     # the shadow functions' own globals
+    km["max"] = smax
+    n0 = len(uf.log)
+    with quiet():
+        km["kde_histogram"](xs, ys)
+    call = [a for nm, a in uf.log[n0:] if nm == "histogram2d"][0]
+    ex = smax(5, bin_num(xs))
+    ey = smax(5, bin_num(ys))
+    eng.prove(z3.And(toint(call[2]) == toint(ex),
+                     toint(call[3]) == toint(ey)),
+              "kde_histogram default bins == max(5, Doane number) of the "
+              "respective axis",
+              info=lambda ev: {"bins passed to histogram2d":
+                               [str(call[2]), str(call[3])]})
     return "ok"
 
 
@@ -1198,6 +1223,28 @@ def _replay_wiring(p, what):
                         "detail": "kde_histogram differs from histogram2d + "
                         "spline through the bin centres (max diff %g)" %
                         np.nanmax(np.abs(got - ref))}
+        elif "default bins" in what:
+            # differently skewed axes: Doane's numbers differ and exceed 5
+            x = rs.normal(100, 20, 600)
+            y = np.exp(rs.normal(-2.5, 0.8, 600))
+            seen = []
+            orig = np.histogram2d
+
+            def spy(*a, **k):
+                seen.append(k.get("bins", a[2] if len(a) > 2 else None))
+                return orig(*a, **k)
+            np.histogram2d = spy
+            try:
+                km.kde_histogram(x, y)
+            finally:
+                np.histogram2d = orig
+            exp = (max(5, km.bin_num_doane(x)), max(5, km.bin_num_doane(y)))
+            if not seen or tuple(seen[0]) != exp:
+                return {"reproduced": True,
+                        "key": "kde_histogram|default-bins",
+                        "detail": "kde_histogram without `bins` bins the "
+                        "events with %r; Doane's numbers of the two axes are "
+                        "%r" % (seen[0] if seen else None, exp)}
         else:
             ok = ~np.isnan(x)
             got = km.kde_multivariate(x, y)
